@@ -57,11 +57,25 @@ class FakeExecutor:
     order = []
 
     def __init__(self, *a, **k):
+        import threading
+
         self.futures, self.ran = [], 0
+        self._lock = threading.RLock()
+        self._timer = None
 
     def submit(self, fn, /, *args, **kwargs):
+        import threading
+
         f = _Future(self, fn, args, kwargs)
         self.futures.append(f)
+        # a caller that blocks in concurrent.futures.as_completed / wait never asks a future for its result, so the
+        # tasks must also complete on their own: once no task has been submitted for a moment they are run (in the
+        # chosen completion order) on a helper thread
+        if self._timer is not None:
+            self._timer.cancel()
+        self._timer = threading.Timer(0.02, self._drain)
+        self._timer.daemon = True
+        self._timer.start()
         return f
 
     def map(self, fn, *iterables, timeout=None, chunksize=1):
@@ -69,18 +83,19 @@ class FakeExecutor:
         return (f.result() for f in fs)
 
     def _drain(self):
-        n = len(self.futures)
-        todo = [i for i in type(self).order if i < n] + [i for i in range(n) if i not in type(self).order]
-        for i in todo:
-            f = self.futures[i]
-            if f._task is None:
-                continue
-            fn, args, kwargs = f._task
-            f._task = None
-            try:
-                f.set_result(fn(*args, **kwargs))
-            except BaseException as e:  # delivered to the caller of result()
-                f.set_exception(e)
+        with self._lock:
+            n = len(self.futures)
+            todo = [i for i in type(self).order if i < n] + [i for i in range(n) if i not in type(self).order]
+            for i in todo:
+                f = self.futures[i]
+                if f._task is None:
+                    continue
+                fn, args, kwargs = f._task
+                f._task = None
+                try:
+                    f.set_result(fn(*args, **kwargs))
+                except BaseException as e:  # delivered to the caller of result()
+                    f.set_exception(e)
 
     def shutdown(self, wait=True, cancel_futures=False):
         self._drain()
